@@ -13,6 +13,7 @@ mod freerun;
 mod exec_suts;
 mod chan_suts;
 mod cont_suts;
+mod handle_suts;
 
 use sched::*;
 use serde_json::{json, Value};
@@ -31,6 +32,10 @@ pub trait Sut: Send + Sync {
     fn finish(&self, _stalled: bool) -> Value {
         Value::Null
     }
+    /// API-level events of what was done while the object was set up (before any thread ran), as (op, result) pairs
+    fn prelude(&self) -> Vec<(Value, Value)> {
+        vec![]
+    }
     /// last chance to tear things down and add what that showed to the observation (`hard`: a thread is stuck inside the code under test)
     fn after_finish(&self, _obs: &mut Value, _hard: bool) {}
 }
@@ -48,6 +53,11 @@ fn run_once(scn: &Value, strategy: &mut dyn Strategy, record_ops: bool) -> RunOu
     let sut = suts::make_sut(scn);
     reactive_mutiny::verif::set_sequence_origin(0);
     let sched = Sched::new(&names, record_ops);
+    for (op, res) in sut.prelude() {
+        let name = op["op"].as_str().unwrap_or("?").to_string();
+        sched.record(json!({"k":"call","t":0,"fn":name,"fld":"","o":"","a":0,"b":0,"r":0,"ok":true,"obj":0,"x":op}));
+        sched.record(json!({"k":"ret","t":0,"fn":name,"fld":"","o":"","a":0,"b":0,"r":0,"ok":true,"obj":0,"x":res}));
+    }
     let mut handles = vec![];
     for (t, th) in threads.iter().enumerate() {
         let ops: Vec<Value> = th["ops"].as_array().cloned().unwrap_or_default();
